@@ -953,12 +953,15 @@ def _requirements_part(ctx, events, recipes):
 
     rng = ctx.rng
 
-    def case(evs, nseed, sx, sy, which):
+    def case(evs, nseed, sx, sy, which, pk='gaussian'):
         nrng = np.random.default_rng(nseed)
         step = 0.5 * sx
         x = step * np.arange(121, dtype='float64') - 7.0 * sx
         width_steps, req = {
             'too narrow': (0.45, {'min_p': 1e-6, 'max_w': 1.0, 'min_w': 4.0}),     # FWHM ~ 1.06 steps < 4 steps
+            # FWHM 3.7 steps against a minimum of 4: 8 % below the requirement (a width that is wrong by more than that
+            # - e.g. a pseudo-Voigt FWHM that adds a Gaussian factor - lets it pass)
+            'marginally narrow': (3.7 / 2.3548200450309493, {'min_p': 1e-6, 'max_w': 1.0, 'min_w': 4.0}),
             'too wide': (6.0, {'min_p': 1e-6, 'max_w': 0.25, 'min_w': 1.0}),        # FWHM ~ 14 steps > 0.25 * 40 steps
             'fine': (2.0, {'min_p': 1e-6, 'max_w': 1.0, 'min_w': 1.0}),
         }[which]
@@ -968,11 +971,11 @@ def _requirements_part(ctx, events, recipes):
         data = sc.DataArray(sc.array(dims=['d'], values=y, variances=var, unit='counts'),
                             coords={'d': sc.array(dims=['d'], values=x, unit='angstrom')})
         cev = {'ev': 'call', 'tid': 0, 'nest': 1, 'out': 'ok', 'nres': 0, 'order_ok': True, 'iso': [],
-               'forms': ['name', 'name'], 'peak': ['gaussian'], 'bkg': ['linear'], 'explicit': False, 'which': which,
+               'forms': ['name', 'name'], 'peak': [pk], 'bkg': ['linear'], 'explicit': False, 'which': which,
                'scales': [sx, sy], 'args_same': True, 'again_same': True}
         try:
             res = fit_peaks(data, peak_estimates=sc.array(dims=['d'], values=[23.0 * sx], unit='angstrom'),
-                            windows=sc.scalar(20.0 * sx, unit='angstrom'), background='linear', peak='gaussian',
+                            windows=sc.scalar(20.0 * sx, unit='angstrom'), background='linear', peak=pk,
                             fit_requirements=FitRequirements(min_p_value=req['min_p'], max_peak_width_factor=req['max_w'],
                                                              min_peak_width_factor=req['min_w']))
         except Exception as e:  # noqa: BLE001
@@ -983,13 +986,15 @@ def _requirements_part(ctx, events, recipes):
         cev['nres'] = len(res)
         evs.append(cev)
         for r in res:
-            evs.append(_fit_event(ctx, 0, r, x, y, var, step, req, ['gaussian'], ['linear']))
-            ctx.case(nontrivial_id=('q', which, sx, sy))
+            evs.append(_fit_event(ctx, 0, r, x, y, var, step, req, [pk], ['linear']))
+            ctx.case(nontrivial_id=('q', which, sx, sy, pk))
 
     for sx, sy in SCALES:
         nseed = rng.getrandbits(32)
-        for which in ('too narrow', 'too wide', 'fine'):
-            def fn(evs, a=(nseed, sx, sy, which)):
+        for which, pk in (('too narrow', 'gaussian'), ('too wide', 'gaussian'), ('fine', 'gaussian'),
+                          ('marginally narrow', 'gaussian'), ('marginally narrow', 'pseudo_voigt'),
+                          ('marginally narrow', 'lorentzian'), ('fine', 'pseudo_voigt')):
+            def fn(evs, a=(nseed, sx, sy, which, pk)):
                 case(evs, *a)
             start = len(events)
             fn(events)
